@@ -1,5 +1,6 @@
 import BoltonsVerif.C03.Proofs
 import BoltonsVerif.C03.Micro
+import BoltonsVerif.C03.Readers
 import BoltonsVerif.Generated.C03_CacheLocks
 import BoltonsVerif.C02.Proofs
 /-
@@ -307,6 +308,72 @@ theorem half_done_state_inconsistent :
     ∃ c, (Cfg.init full2 [[C02.Op.setitem 3 1]]).exec readerSys [0, 0, 0] = some c ∧
       c.shared.d.length = 1 ∧ c.shared.ring.length = 2 ∧ c.owner = some (0, 1) :=
   ⟨_, rfl, by decide, by decide, by decide⟩
+
+/-- What DOES hold with unlocked readers around (the part of the statement the harness compares): for every
+    schedule of any number of threads mixing locked operations with read-only unlocked ones,
+    the final state is the sequential run of all operations in the order they started (readers being
+    identities: the locked operations in lock-acquisition order), program order is respected, every thread
+    that issues only locked operations gets exactly the sequential results, and the lock is free. -/
+theorem serializable_with_readers (sys : Sys S Op Out) (s0 : S) (progs : List (List Op))
+    (hro : ∀ o, sys.protect o = false → RO (sys.body o))
+    (hwn : ∀ o, sys.protect o = true → WN 0 (sys.body o))
+    (sch : List Tid) (c : Cfg S Op Out)
+    (hexec : (Cfg.init s0 progs).exec sys sch = some c) (hdone : c.complete = true) :
+    ∃ log : List (Tid × Op),
+      (∀ i p, progs[i]? = some p → opsOf i log = p) ∧
+      c.shared = serialState sys s0 log ∧
+      (∀ i t, c.threads[i]? = some t → AllProt sys progs i → t.outs = serialOuts sys s0 i log) ∧
+      c.owner = none := by
+  have hinv := inv2_exec sys s0 progs hro hwn _ c sch (inv2_init sys s0 progs) hexec
+  obtain ⟨hlen, hprog, hst⟩ := hinv
+  have hall : ∀ (j : Tid) (t : Thread S Op Out), c.threads[j]? = some t → t.todo = [] ∧ t.cur = none := by
+    intro j t hj
+    have hmem : t ∈ c.threads := List.mem_of_getElem? hj
+    have := List.all_eq_true.mp hdone t hmem
+    simp only [Thread.done, Bool.and_eq_true, List.isEmpty_iff, Option.isNone_iff_eq_none] at this
+    exact this
+  refine ⟨c.log, ?_, ?_⟩
+  · intro i p hp
+    have hi : i < c.threads.length := by
+      rw [hlen]; exact lt_of_getElem?_some hp
+    have ht : c.threads[i]? = some c.threads[i] := List.getElem?_eq_getElem hi
+    have := hprog i _ ht
+    rw [hp, (hall i _ ht).1] at this
+    simp at this
+    exact this.symm
+  · rcases hst with ⟨hown, _, houts, hsh⟩ | ⟨i0, t0, p0, _, _, _, _, ht0, hc0, _⟩
+    · exact ⟨hsh, houts, hown⟩
+    · have := (hall i0 t0 ht0).2
+      rw [hc0] at this; cases this
+
+/-- mutual exclusion survives the readers: two threads that are both inside an operation are never both
+    inside a LOCKED one (at most one thread holds the lock; everybody else in progress is a reader) -/
+theorem mutual_exclusion_with_readers (sys : Sys S Op Out) (s0 : S) (progs : List (List Op))
+    (hro : ∀ o, sys.protect o = false → RO (sys.body o))
+    (hwn : ∀ o, sys.protect o = true → WN 0 (sys.body o))
+    (sch : List Tid) (c : Cfg S Op Out) (hexec : (Cfg.init s0 progs).exec sys sch = some c)
+    (i j : Tid) (ti tj : Thread S Op Out)
+    (hi : c.threads[i]? = some ti) (hj : c.threads[j]? = some tj)
+    (hci : ti.holds = true ∧ ti.cur ≠ none) (hcj : tj.holds = true ∧ tj.cur ≠ none) : i = j := by
+  have hinv := inv2_exec sys s0 progs hro hwn _ c sch (inv2_init sys s0 progs) hexec
+  have key : ∀ (k : Tid) (tk : Thread S Op Out), NotHolder sys progs k tk →
+      ¬ (tk.holds = true ∧ tk.cur ≠ none) := by
+    intro k tk hnh ⟨hh, hc⟩
+    rcases hnh with h | ⟨h, _⟩
+    · exact hc h
+    · rw [h] at hh; cases hh
+  rcases hinv.st with ⟨_, hnh, _, _⟩ | ⟨i0, t0, p0, _, _, _, _, ht0, _, _, _, _, _, _, hoth, _, _⟩
+  · exact absurd hci (key i ti (hnh i ti hi))
+  · have h1 : i = i0 := Classical.byContradiction fun h => key i ti (hoth i ti h hi) hci
+    have h2 : j = i0 := Classical.byContradiction fun h => key j tj (hoth j tj h hj) hcj
+    rw [h1, h2]
+
+/-- non-vacuity: the cache system with unlocked `len` / `in` / iteration and the three-write `__setitem__`
+    satisfies both hypotheses -/
+example : ∀ o, readerSys.protect o = false → RO (readerSys.body o) := by
+  intro o h
+  cases o <;> simp [readerSys] at h <;> simp [readerSys, microBody, atomicBody, RO, C02.step]
+example : ∀ o, readerSys.protect o = true → WN 0 (readerSys.body o) := fun o _ => microBody_wn o
 
 /-- the same programs, protected: the theorem applies (non-vacuity of `serializable`) -/
 example : ∀ o, toyProtected.protect o = true := fun _ => rfl
